@@ -61,6 +61,27 @@ PLANS = {
     "C18": arena("C18", 100, 2500, need=["align_raise", "align_lower", "conversion_probe", "scope_exit_unwind"]),
 }
 
+def pure_plan(what, nq, nt, need, extra_quick=(), extra_thorough=()):
+    return dict(
+        level="exploration", need=list(need),
+        rule="evaluations = inputs (free range, layout, minimum alignment / header layout, size hint) evaluated by the real pure functions compiled from /repo "
+             "next to a wide-integer reference specification, each under every truthful hint combination; non-trivial = regular (non-dummy) range and non-zero size, distinct by the input tuple",
+        quick=[("dbg", "pure", ["--what", what], 16, ["--n", str(nq)]),
+               ("rel", "pure", ["--what", what], 16, ["--n", str(nq * 2)]),
+               ("miri", "pure", ["--what", what], 4, ["--n", "250"]), *extra_quick],
+        thorough=[("dbg", "pure", ["--what", what], 16, ["--n", str(nt)]),
+                  ("rel", "pure", ["--what", what], 16, ["--n", str(nt * 4)]),
+                  ("miri", "pure", ["--what", what], 16, ["--n", "1500"]), *extra_thorough],
+    )
+
+PLANS["C11"] = pure_plan("bumping", 150000, 12000000,
+                         ["up:mid:align<=min:fits", "up:mid:align>16:does_not_fit", "down:mid:align<=16:fits", "down:near_top:align>16:does_not_fit",
+                          "up:near_top:align>16:fits", "up:dummy:align<=min:does_not_fit", "down:dummy:align>16:does_not_fit", "up:near_zero:align<=16:fits"])
+_c12a = arena("C12", 60, 1500)
+PLANS["C12"] = pure_plan("chunksize", 150000, 8000000,
+                         ["fit_checked", "growth_checked", "hint_overflow_reported", "up_sized", "down_sized", "slow_new", "with_capacity_fit", "reserve_new_chunk", "first_chunk_from_unallocated"],
+                         extra_quick=_c12a["quick"], extra_thorough=_c12a["thorough"][:4])
+
 # ---------------------------------------------------------------------------------------------
 # building
 
@@ -361,8 +382,8 @@ def run_check(prop, tier, seed):
         coverage=dict(
             evaluations=tot_hist,
             distinct_nontrivial=len(hashes),
-            rule="evaluations = generated operation histories executed against the real arena (each op followed by all oracles); "
-                 "a history is non-trivial if it hit at least one monitored event class (slow path, reallocation, scope exit, ...) and distinct by the hash of (configuration, operation descriptions)",
+            rule=plan.get("rule", "evaluations = generated operation histories executed against the real arena (each op followed by all oracles); "
+                 "a history is non-trivial if it hit at least one monitored event class (slow path, reallocation, scope exit, ...) and distinct by the hash of (configuration, operation descriptions)"),
             samples=samples[:5] or ["(no sample)"],
             operations=tot_ops,
             distinct_abstract_states=tot_states,
